@@ -125,6 +125,11 @@ class Action(BaseForm):
 
     def __init__(self, left, right):
         """Initialise."""
+        if self is left or self is right:
+            # `__new__` returned one of the operands (identity simplification)
+            # and Python re-runs `__init__` on it because it is an Action:
+            # it is already initialised, do not overwrite its operands.
+            return
         BaseForm.__init__(self)
 
         self._left = left
